@@ -34,6 +34,7 @@ CONSTANTS Caps,        \* capacities of the Ethernet buffer explored by part A
           DhcpCaps,    \* capacities of the buffer handed to EncodeDHCP4 (part B)
           BigCode,     \* an option code whose value length ranges over BigLens (e.g. 43, vendor specific)
           BigLens,     \* value length classes of BigCode: {0, 1, typical, 254, 255}; 255 is the largest legal length
+          WriteFailures, \* write-failure classes of the connection during a send action: subset of {"none","temp1","perm1","temp2"}
           IdClasses,   \* classes of the echo identifier of the echo send functions (part C), see EchoIdClasses
           NICs,        \* NIC configurations (names, concretised by the driver)
           Parts        \* subset of {"build", "alias", "dhcp", "send", "pairs"}
@@ -115,7 +116,10 @@ RECURSIVE SeqsUpTo(_, _)
 SeqsUpTo(S, n) == IF n = 0 THEN {<<>>}
                   ELSE LET shorter == SeqsUpTo(S, n - 1) IN
                        shorter \cup {Append(q, x) : q \in {r \in shorter : Len(r) = n - 1}, x \in S}
-DhcpOrders == SeqsUpTo(ReqCodes, MaxReq)
+\* requested-parameter lists naming a code twice with another code in between (the short lists of SeqsUpTo already
+\* contain the adjacent repetitions <<c, c>>), and the list of a common client with a repeated DNS option
+RepeatOrders == {<<c, d, c>> : c \in ReqCodes \cap {1, 3, 6}, d \in ReqCodes \cap {1, 3, 6}} \cup {<<1, 3, 6, 15, 6>>, <<3, 33, 3>>}
+DhcpOrders == SeqsUpTo(ReqCodes, MaxReq) \cup RepeatOrders
 OptLens(s, bl) == [i \in 1..Cardinality(Supplied(s)) |->
                  LET c == SetToSeq(Supplied(s))[i] IN [c |-> c, n |-> VLen(c, bl)]]
 
@@ -649,6 +653,8 @@ Call(c) ==
       [] c.f = "arp.RequestRaw" -> Arp(c.mac, "1", c.src, c.dst, FALSE)
       [] c.f = "arp.Reply" -> Arp(c.mac, "2", c.src, c.dst, FALSE)
       [] c.f = "dhcp4.SendDiscoverPacket" -> Discover(c.ch, c.ci, c.name)
+      \* c.sp: UDP source port of the client's request ("68" or another port): a server-to-client message always goes to
+      \* port 68 (RFC 2131 4.1), on the broadcast and on the unicast branch
       [] c.f = "dhcp4.ServerReply" -> ServerReply(c.mt, c.bcast)
       [] c.f = "dhcp4.ForgedDecline" -> ForgedDecline
       \* two OFFERs of another server arrive back to back in ONE reused receive buffer: the DECLINE forged for the
@@ -663,10 +669,20 @@ Call(c) ==
       [] c.f = "dns.SendNBNSNodeStatus" -> NBNS(HostAddr4, A("bcast", "bcast4"), "33")
 
 PoolAfter(c) == IF Call(c).mech.n = 1 THEN Call(c).mech.fr ELSE pool      \* what the call leaves in the buffer
-Send(c, nic) ==
+\* Write failures.  While the action runs, the first write(s) of the connection fail with a temporary (EAGAIN style) or a
+\* permanent net.Error ("temp1", "perm1", "temp2" = two temporary failures) and the following ones succeed.  The statement
+\* speaks about frames that are transmitted: whether the action gives up, retries or goes on is its own business (n and err
+\* are not constrained), but EVERY frame that reaches the wire -- also one written after a failed attempt -- is judged by the
+\* same expectation as without failure.
+UnderFailure(x, wf) ==
+    IF wf = "none" THEN x
+    ELSE [x EXCEPT !.exp = [x.exp EXCEPT !.n = IF @ = 1 THEN -1 ELSE @, !.err = "any"],
+                   !.mech = [x.mech EXCEPT !.n = -1, !.err = "any"]]
+\* ctx = [nic, wf]
+Send(c, ctx) ==
     /\ phase = "idle" /\ "send" \in Parts
     /\ phase' = "vec"
-    /\ vec' = [part |-> "send", nic |-> nic, call |-> c] @@ Call(c)
+    /\ vec' = [part |-> "send", nic |-> ctx.nic, wf |-> ctx.wf, call |-> c] @@ UnderFailure(Call(c), ctx.wf)
     /\ pool' = PoolAfter(c)
     /\ UNCHANGED <<cap, st, cur, res, hist>>
 
@@ -693,8 +709,8 @@ PairCalls == <<
     [f |-> "arp.RequestRaw", mac |-> "mac1", src |-> A("hostmac", "routerip4"), dst |-> A("mac1", "lan4")],
     [f |-> "arp.Reply", mac |-> "mac1", src |-> A("hostmac", "routerip4"), dst |-> A("mac1", "lan4")],
     [f |-> "dhcp4.SendDiscoverPacket", ch |-> "mac1", ci |-> "lan4", name |-> "long"],
-    [f |-> "dhcp4.ServerReply", mt |-> "2", bcast |-> TRUE, cid |-> "mac"],
-    [f |-> "dhcp4.ServerReply", mt |-> "6", bcast |-> TRUE, cid |-> "long"],
+    [f |-> "dhcp4.ServerReply", mt |-> "2", bcast |-> TRUE, cid |-> "mac", sp |-> "68"],
+    [f |-> "dhcp4.ServerReply", mt |-> "6", bcast |-> TRUE, cid |-> "long", sp |-> "other"],
     [f |-> "dhcp4.ForgedDecline", cid |-> "long"], [f |-> "dhcp4.ForgedRelease", cid |-> "mac"],
     [f |-> "dns.SendMDNSQuery"], [f |-> "dns.SendLLMNRQuery"], [f |-> "dns.SendSSDPSearch"], [f |-> "dns.SendNBNSNodeStatus"],
     [f |-> "dns.SendSleepProxyResponse", src |-> HostAddr4, dst |-> A("mac1", "lan4")],
@@ -748,8 +764,8 @@ ArpReply(n)      == \E m \in ArpDstMACs, s \in ArpSenders, t \in ArpTargets :
                         Send([f |-> "arp.Reply", mac |-> m, src |-> s, dst |-> t], n)
 DhcpSendDiscover(n) == \E ch \in {"mac1", "mac2", "hostmac"}, ci \in {"zero4", "lan4", "hostip4"}, nm \in {"none", "short", "long"} :
                         Send([f |-> "dhcp4.SendDiscoverPacket", ch |-> ch, ci |-> ci, name |-> nm], n)
-DhcpServerReply(n)  == \E mt \in {"2", "5", "6"}, b \in BOOLEAN, cid \in {"mac", "long"} :
-                        (b \/ mt = "5") /\ Send([f |-> "dhcp4.ServerReply", mt |-> mt, bcast |-> b, cid |-> cid], n)
+DhcpServerReply(n)  == \E mt \in {"2", "5", "6"}, b \in BOOLEAN, cid \in {"mac", "long"}, sp \in {"68", "other"} :
+                        (b \/ mt = "5") /\ Send([f |-> "dhcp4.ServerReply", mt |-> mt, bcast |-> b, cid |-> cid, sp |-> sp], n)
 DhcpForged(n)       == \E k \in {"dhcp4.ForgedDecline", "dhcp4.ForgedDeclinePair", "dhcp4.ForgedRelease"}, cid \in {"mac", "long"} : Send([f |-> k, cid |-> cid], n)
 DnsQueries(n)       == \E k \in {"dns.SendMDNSQuery", "dns.SendLLMNRQuery", "dns.SendSSDPSearch", "dns.SendNBNSNodeStatus"} : Send([f |-> k], n)
 DnsSleepProxy(n)    == \E s \in {HostAddr4, A("mac1", "lan4"), HostLLAAddr}, d \in {A("mac1", "lan4"), A("bcast", "bcast4"), A("01:00:5e:00:00:fb", "224.0.0.251")} :
@@ -757,7 +773,7 @@ DnsSleepProxy(n)    == \E s \in {HostAddr4, A("mac1", "lan4"), HostLLAAddr}, d \
 DnsNBNSQuery(n)     == \E s \in {HostAddr4, A("mac1", "lan4"), A("hostmac", "lan4")}, d \in {A("mac1", "lan4"), A("bcast", "bcast4"), RouterAddr4} :
                         Send([f |-> "dns.SendNBNSQuery", src |-> s, dst |-> d], n)
 
-SendNext == phase = "idle" /\ "send" \in Parts /\ \E n \in NICs :
+SendNext == phase = "idle" /\ "send" \in Parts /\ \E n0 \in NICs, wf \in WriteFailures : LET n == [nic |-> n0, wf |-> wf] IN
     \/ ICMP4SendEchoRequest(n) \/ ICMP6SendEchoRequest(n) \/ ICMP6SendNeighborAdvertisement(n)
     \/ ICMP6SendNeighbourSolicitation(n) \/ ICMP6SendRouterSolicitation(n) \/ ICMP6SendRouterAdvertisement(n)
     \/ Ping(n) \/ Ping6(n) \/ Purge(n)
@@ -768,10 +784,10 @@ SendNext == phase = "idle" /\ "send" \in Parts /\ \E n \in NICs :
 \* C07 on the model: the mechanism emits a well formed frame exactly where no deviation is labelled
 IsSendVec == phase = "vec" /\ vec.part = "send"
 C07_MechWellFormedUnlessKF ==
-    (IsSendVec /\ vec.clean /\ vec.mech.n = 1) => (WellFormed(vec.mech.fr, vec.exp.fr) <=> vec.mech.kf = {})
+    (IsSendVec /\ vec.clean /\ Call(vec.call).mech.n = 1) => (WellFormed(vec.mech.fr, vec.exp.fr) <=> vec.mech.kf = {})
 \* every labelled field really deviates, and nothing else does
 C07_KFExact ==
-    (IsSendVec /\ vec.clean /\ vec.mech.n = 1) =>
+    (IsSendVec /\ vec.clean /\ Call(vec.call).mech.n = 1) =>
         LET m == vec.mech.fr  e == vec.exp.fr
             dev == {k \in {"ethSrc", "ethDst", "ipSrc", "ipDst", "kind", "sound"} :
                       CASE k = "ethSrc" -> m.ethSrc # "hostmac" [] k = "ethDst" -> ~Match(m.ethDst, e.ethDst)
@@ -779,7 +795,7 @@ C07_KFExact ==
                         [] k = "kind" -> m.kind # e.kind [] k = "sound" -> m.sound # "ok"}
         IN dev \subseteq {x.field : x \in vec.mech.kf}
 C07_ExpSelfConsistent ==
-    (IsSendVec /\ vec.exp.n = 1) => WellFormed([vec.exp.fr EXCEPT !.hop = HopDemanded(vec.exp.fr)], vec.exp.fr)
+    (IsSendVec /\ Call(vec.call).exp.n = 1) => WellFormed([vec.exp.fr EXCEPT !.hop = HopDemanded(vec.exp.fr)], vec.exp.fr)
 
 -----------------------------------------------------------------------------
 (* No shared state.                                                          *)
